@@ -125,7 +125,39 @@ pub fn main(tier: Tier, seed: u64) -> i32 {
             ),
         }
     }
-    rep.evaluations = j.evaluations + tap_cases.len() as u64;
+    // n = 2: a rushing peer that hands the victim its own message of a symmetric online round back
+    // (both parties send 'wire shares', 'masked inputs' and, when both are output parties, 'output wire
+    // shares' to each other): the victim must abort
+    let mut refl = vec![];
+    for (ci, cfg) in cfgs.iter().enumerate() {
+        if cfg.case.n() == 2 && cfg.case.circ.and_count() <= 64 {
+            for label in ["wire shares", "masked inputs", "output wire shares"] {
+                refl.push((ci, label));
+            }
+        }
+    }
+    let refl_res = par_map(&refl, |w, _, (ci, label)| {
+        let cfg = &cfgs[*ci];
+        let victim = 1 - cfg.corrupted;
+        let f = crate::exec::Fault { party: victim, dir: crate::exec::Dir::Recv, peer: cfg.corrupted, label: label.to_string(), ord: 0, mutation: crate::exec::Mutation::Reflect };
+        let (fr, r) = run_faults(cfg, vec![f], vec![], false, w);
+        (fr, r.faults_hit.first().copied().unwrap_or(false))
+    });
+    let mut refl_detected = 0u64;
+    for ((ci, label), (r, hit)) in refl.iter().zip(refl_res.iter()) {
+        let cfg = &cfgs[*ci];
+        let victim = 1 - cfg.corrupted;
+        if !*hit || r.identical {
+            continue;
+        }
+        if r.outcomes[victim].0 == "Err" {
+            refl_detected += 1;
+        } else {
+            rep.violation(format!("undetected:reflected:{label}"), format!("{}: the peer hands party {victim} its own {label:?} message back -> p{victim}:{}({})", cfg.name, r.outcomes[victim].0, r.outcomes[victim].1), json!({"kind":"reflect","case":cfg.case,"corrupted":cfg.corrupted,"seed":cfg.seed,"label":label}));
+        }
+    }
+    rep.set("online_reflection", json!({"runs": refl.len(), "detected": refl_detected}));
+    rep.evaluations = j.evaluations + tap_cases.len() as u64 + refl.len() as u64;
     rep.distinct_nontrivial = j.nontrivial.len() as u64 + tap_detected;
     if rep.exhaustive.is_none() {
         rep.exhaustive = Some(true);
@@ -133,7 +165,7 @@ pub fn main(tier: Tier, seed: u64) -> i32 {
     rep.set("trivial_cases", json!(j.trivial));
     rep.set("tap_cases", json!(tap_cases.len()));
     rep.set("configurations", json!(cfgs.iter().map(|c| c.name.clone()).collect::<Vec<_>>()));
-    rep.rule = "online-phase messages of the corrupted party (wire shares, masked inputs, labels, preprocessed gates, output wire shares, lambda, broadcast echo): every field x position (quick: first/middle/last of long vectors) x {xor low bit, xor top bit, flip bool, Some->None; thorough adds set-zero/ones and every index}; n=3: to one recipient and consistently to all; plus the garbled-share tap per AND gate; plus a 1100-AND circuit (two chunks of garbled gates) with faults in the second chunk's message and taps at gates 0, 999, 1000, 1099. Oracle: the honest consumer returns Err. trivial = unread by design (inactive row, label not feeding an AND gate) or an input substitution (consistent change of the own masked input); distinct = (configuration, label/field, recipients, position)".into();
+    rep.rule = "online-phase messages of the corrupted party (wire shares, masked inputs, labels, preprocessed gates, output wire shares, lambda, broadcast echo): every field x position (quick: first/middle/last of long vectors) x {xor low bit, xor top bit, flip bool, Some->None; thorough adds set-zero/ones and every index}; n=3: to one recipient and consistently to all; plus the garbled-share tap per AND gate; plus a 1100-AND circuit (two chunks of garbled gates) with faults in the second chunk's message and taps at gates 0, 999, 1000, 1099. n=2: the victim is handed its own 'wire shares' / 'masked inputs' / 'output wire shares' message back (rushing peer). Oracle: the honest consumer returns Err. trivial = unread by design (inactive row, label not feeding an AND gate) or an input substitution (consistent change of the own masked input); distinct = (configuration, label/field, recipients, position)".into();
     rep.assumptions = vec![
         "a tampered value is counted only if it differs from the honest one; random MAC/AEAD forgeries are treated as impossible".into(),
         "active garbled row determined by trial: tampering an inactive row leaves everything the honest parties send and return identical".into(),
